@@ -16,6 +16,9 @@ def setup(J):
             add("g7", 1, 2, kind)
             add("g8", 1, 1, kind)
         add("g3", 1, 1, "cmd", extra="prepend", id="C10-g3-i1-m1-cmd-prepend"); add("g8d", 1, 1, "cmd")
+        add("g8", 2, 1, "cmd", extra="escparam", id="C10-g8-i2-m1-cmd-backslash-escapes-in-param")
+        # a coarse logical clock (700 ms per reading): tasks straddle second boundaries, durations exceed a second
+        add("g3", 2, 1, "cmd", clock_step_ms=700, id="C10-g3-i2-m1-cmd-clock700ms"); add("g7", 1, 2, "func", clock_step_ms=1300, id="C10-g7-i1-m2-func-clock1300ms")
         add("g5", 2, 2, "cmd"); add("g6", 1, 1, "cmd"); add("g6b", 2, 1, "cmd"); add("g14a", 1, 1, "cmd"); add("g14a", 2, 2, "func"); add("g8b", 2, 1, "cmd"); add("g14b", 1, 1, "cmd"); add("g14b", 1, 2, "func")
         for sep, k in ((",", 2), (" ", 3)):
             jobs.append(J.with_delay_fallback(J.wf("C10", "gjoin", k, 1, 2, "cmd", oracles=["nohang", "clean", "c10", "c18"], tier=tier, events_dep=False, extra=sep, id=f"C10-gjoin-k{k}-sep{ord(sep)}")))
@@ -29,7 +32,7 @@ def setup(J):
         if not q:
             add("g3", 3, 2, "cmd"); add("g4", 2, 2, "cmd"); add("g6", 2, 2, "cmd"); add("g7", 2, 2, "func"); add("g8", 2, 2, "func"); add("g5b", 2, 2, "cmd"); add("g12", 3, 2, "cmd")
         return {"level": "model_checking", "native": True, "stages": [lambda ctx, prev: jobs, J.maporder_stage("C10", o, tier), J.maporder_stage("C10", o, tier, graphs=("gjoin3",))] + J.opfault_stages("C10", ["nohang", "c10", "c04"], tier, [("g3", 1, 1, "cmd", ""), ("g7", 1, 1, "func", ""), ("g14a", 1, 1, "cmd", ""), ("g8", 1, 1, "cmd", "")]),
-                "rule": "graphs G3 G5 G6 G6b G7 G8 G8b G14a + join scenario, command and Go-function bodies, every Mazurkiewicz trace (audit content must not depend on the schedule) + forced map-iteration orders; every finalized output's .audit.json parsed and compared field by field with the reference lineage tree: process name, exact command handed to the exec seam, params, tags (incl. tags attached by MapToTags on every descendant), out-files, Upstream keyed by input path recursively to the sources, start <= finish, duration >= 0; single injected I/O error (the n-th file-system operation fails with EIO, every n): stop, or complete with complete records",
+                "rule": "graphs G3 G5 G6 G6b G7 G8 G8b G14a + join scenario, command and Go-function bodies, every Mazurkiewicz trace (audit content must not depend on the schedule) + forced map-iteration orders; every finalized output's .audit.json parsed and compared field by field with the reference lineage tree: process name, exact command handed to the exec seam, params, tags (incl. tags attached by MapToTags on every descendant), out-files, Upstream keyed by input path recursively to the sources, start <= finish, duration >= 0 and equal to finish - start (also under a coarse logical clock: 700 / 1300 ms per reading); single injected I/O error (the n-th file-system operation fails with EIO, every n): stop, or complete with complete records",
                 "assumptions": J.BASE_ASSUMPTIONS + ["IDs and absolute times are not compared", "the tagging-on-a-fan-out-arm scenario (G14) belongs to C12: its audit content depends on a data race (known finding there)"]}
 
     @J.register("C11")
@@ -37,23 +40,26 @@ def setup(J):
         q = tier == "quick"
         o_full = ["nohang", "clean", "c10", "c04", "c11-roundtrip"]
         o_resume = ["nohang", "clean", "c10", "c04", "c11-roundtrip", "c11-unchanged"]
-        combos = [("g3", 1, 1, "cmd"), ("g3", 1, 1, "func"), ("g7", 1, 1, "cmd"), ("g14a", 1, 1, "cmd"), ("g8", 1, 1, "cmd")]
+        combos = [("g3", 1, 1, "cmd"), ("g3", 1, 1, "func"), ("g7", 1, 1, "cmd"), ("g14a", 1, 1, "cmd"), ("g8", 1, 1, "cmd"), ("g8", 2, 1, "cmd", "escparam")]
         if not q:
             combos += [("g6", 1, 2, "cmd"), ("g3", 2, 2, "cmd"), ("g8", 2, 2, "cmd"), ("g14a", 2, 2, "func"), ("g6b", 1, 1, "cmd"), ("g7", 1, 2, "cmd"), ("g3", 2, 2, "func")]
         runto = {"g3": [["p"]], "g7": [["p"], ["q"]], "g14a": [["p"], ["tg"]], "g6b": [["p"]], "g6": [["p"], ["q"], ["q", "r"]], "g8": [["p"]]}
 
         def stage1(ctx, prev):
             jobs = []
-            for g, i, m, kind in combos:
+            for combo in combos:
+                g, i, m, kind = combo[:4]
+                ex = {"extra": combo[4]} if len(combo) > 4 else {}
+                sfx = f"-{combo[4]}" if len(combo) > 4 else ""
                 # uninterrupted run: saves its final disk for (c); list of outputs for the subsets
-                j = J.wf("C11", g, i, 1, m, kind, mode="dpor", oracles=o_full, tier=tier, events_dep=False, id=f"C11-full-{g}-i{i}-m{m}-{kind}", args={"list_outputs": "1"})
+                j = J.wf("C11", g, i, 1, m, kind, mode="dpor", oracles=o_full, tier=tier, events_dep=False, id=f"C11-full-{g}-i{i}-m{m}-{kind}{sfx}", args={"list_outputs": "1"}, **ex)
                 j["save_final"] = os.path.join(ctx["scratch"], "final", j["id"])
                 j["_full"] = True
                 J.with_delay_fallback(j)
                 jobs.append(j)
                 # (a) every RunTo prefix ...
                 for targets in runto.get(g, []):
-                    pj = J.wf("C11", g, i, 1, m, kind, mode="single", oracles=["nohang", "clean"], tier=tier, events_dep=False, runto=targets, id=f"C11-prefix-{g}-i{i}-m{m}-{kind}-to-{'+'.join(targets)}")
+                    pj = J.wf("C11", g, i, 1, m, kind, mode="single", oracles=["nohang", "clean"], tier=tier, events_dep=False, runto=targets, id=f"C11-prefix-{g}-i{i}-m{m}-{kind}{sfx}-to-{'+'.join(targets)}", **ex)
                     pj["save_final"] = os.path.join(ctx["scratch"], "final", pj["id"])
                     pj["_prefix"] = True
                     jobs.append(pj)
